@@ -18,10 +18,17 @@ Record ostep := mkOS { os_cur : option opos; os_exit : option oexit }.
     InstrumentState at the end (None if the tear sheet statistics panicked);
     [ik] = (kind: 0 spot, 1 perpetual, 2 future, 3 option; contract size) of the instrument that
     InstrumentState was built for - printed for the record: the position code does not read it and
-    neither does the model. *)
+    neither does the model (see [meta] for the persist / restore steps). *)
+(** [mkMeta kind size restores rt_ok]: kind / contract size of the instrument the InstrumentState
+    path was built for; [restores] = the fill numbers after which every state (PositionManager
+    keyed by index, PositionManager keyed by name, InstrumentState) was serialised to JSON and
+    restored from it before continuing; [rt_ok] = every such round trip gave back a value equal
+    (Rust ==) to the original. The model treats persist/restore as a no-op. *)
+Record meta := mkMeta { m_kind : N; m_size : Q; m_restores : list N; m_rt_ok : bool }.
+
 Inductive case :=
 | CFills (fills : list ofill) (obs : list ostep) (inst_agrees : bool) (ts : option (N * Q))
-         (ik : N * Q).
+         (ik : meta).
 
 (* ---- corr_b: model = implementation ---------------------------------------------------------- *)
 
@@ -37,9 +44,9 @@ Fixpoint corr_run (t : tols) (c : pm) (fs : list ofill) (os : list ostep) : bool
 
 Definition corr_b (c : case) : bool :=
   match c with
-  | CFills fs os agrees ts _ =>
+  | CFills fs os agrees ts ik =>
       let t := tols_of fs in
-      corr_run t None fs os && agrees &&
+      corr_run t None fs os && (agrees && m_rt_ok ik) &&
       match ts with
       | None => true
       | Some (cnt, pnl) =>
@@ -161,10 +168,10 @@ Definition acc0 : acc := mkAcc 0 0 0 0 0 0 None.
 
 Definition prop_b (c : case) : bool :=
   match c with
-  | CFills fs os agrees ts _ =>
+  | CFills fs os agrees ts ik =>
       let t := tols_of fs in
       let r := prop_run t acc0 fs os in
-      fst r && agrees &&
+      fst r && (agrees && m_rt_ok ik) &&
       match ts with
       | None => true
       | Some (cnt, pnl) =>
@@ -211,7 +218,8 @@ Definition model_case (c : case) : case :=
   match c with
   | CFills fs _ _ _ ik =>
       let xs := snd (prun (map fill_of fs)) in
-      CFills fs (model_obs None fs) true (Some (N.of_nat (length xs), this (sum_x_pnl xs))) ik
+      CFills fs (model_obs None fs) true (Some (N.of_nat (length xs), this (sum_x_pnl xs)))
+             (mkMeta (m_kind ik) (m_size ik) (m_restores ik) true)
   end.
 Definition oracle_accepts_model (c : case) : bool :=
   negb (wf_case c) || (prop_b (model_case c) && corr_b (model_case c)).
